@@ -1,213 +1,495 @@
 /-
 C02 — Schedule token contract.
 
-Concurrent part (this file, section Conc): the model is `Pandora.Model.C02.Conc` — the critical sections of
-`compositeSchedule.Next/Left` as atomic steps over leaf children, ANY number of callers, ANY programs of
-Next/Left calls, ANY interleaving (`sched : List Nat` is arbitrary). Tied to the real code by the
-controlled-interleaving correspondence (harness/cmd/c02/conc.go through the `verif` yield points).
-Sequential part (section Seq): nested composites of finite parts of any depth refine the flat succession
-of their parts; `Left` is exact.
+What the statement means is fixed once, by the FLAT SPEC (`Spec/C02Flat.lean`): a schedule tree is the flat
+succession of its leaf parts (`flat`), each part starting exactly at the finish time of the part before it
+(`inst`); `Next` hands out the first token still available (`segNext`), `Left` is the exact count or -1
+(`segLeft`).  The theorems are of two kinds.
+
+A. REFINEMENT — the code (model `Model/C02Sched.lean`, `Model/C02Par.lean`) behaves like the flat spec:
+   * `C02_tree_refines`, `C02_seq_refines`: every tree of once/const/line/unlimited parts, any nesting depth,
+     0/1/n-child composites, one caller, any sequence of Start/Next/Left with non-decreasing clock readings;
+   * `C02_conc_linearizable`: a composite whose children are ANY objects that refine the flat spec (leaves or
+     composites of any depth, finite or unlimited) is linearizable to the flat spec of all parts, for every number
+     of callers, all their programs of Next/Left calls, every interleaving of the atomic actions and every
+     non-decreasing clock; `C02_tree_conc(_started)` instantiate it for every composite node of every tree.
+     Nesting follows by structural induction because `C02_tree_refines` makes every subtree such a child.
+B. CONTRACT — the clauses of the property, for every run of the atomic flat spec (`Reach`), hence for every
+   concurrent run of the code: `C02_exactly_once(_finite)`, `C02_times_monotone`, `C02_per_caller_monotone`,
+   `C02_chain`, `C02_finish_stable`, `C02_left_*`, `C02_no_panic`, `C02_autostart`, `C02_double_start`,
+   `C02_onFinish_*`, `C02_instance_step`.
 -/
-import Pandora.Proofs.C02Conc
-import Pandora.Proofs.C02Seq
+import Pandora.Proofs.C02Reach
+import Pandora.Bridge.C02Locks
+
+set_option linter.unusedVariables false
 
 namespace Pandora.Props.C02
-open Pandora.Model.C02 Pandora.Model.C02.Conc Pandora.Proofs.C02Conc
+open Pandora.Model.C02 Pandora.Model.C02.Par Pandora.Spec.C02
+open Pandora.Proofs.C02Flat Pandora.Proofs.C02Sem Pandora.Proofs.C02Par Pandora.Proofs.C02Reach
 
-/-- a started composite over finite parts (head started at `s0`, the others untouched), callers with their programs -/
-def initSt (offs : List Int) (dur s0 : Int) (rest : List Leaf) (la : List Int) (progs : List (List Op)) : St :=
-  { cs := Leaf.fin offs dur 0 (some s0) :: rest, la := la, started := true,
-    thr := progs.map (fun p => { todo := p }), log := [] }
+/-- callers with their programs, nothing done yet -/
+def initSt {σ : Type} (sh : Sh σ) (progs : List (List Op)) : St σ :=
+  ⟨sh, progs.map (fun p => { todo := p }), []⟩
 
-/-- the tokens the flat succession of parts consists of: part j+1 starts at the finish time of part j -/
-def allToks (offs : List Int) (dur s0 : Int) (rest : List Leaf) : List Int :=
-  chainToks s0 (Leaf.fin offs dur 0 (some s0) :: rest)
+/-! ## A. Refinement -/
 
-def finishTime (offs : List Int) (dur s0 : Int) (rest : List Leaf) : Int :=
-  chainFinish s0 (Leaf.fin offs dur 0 (some s0) :: rest)
+/-- **Every schedule tree is the flat succession of its leaf parts.**  Whatever `NewComposite` & co. build for a
+tree of once/const/line (`fin`), unlimited and composite nodes — any depth, empty composites, single-child
+composites, zero-token parts, unlimited parts anywhere — exists (no panic while building, whatever the clock) and
+refines the unstarted flat spec `flat t`. -/
+theorem C02_tree_refines (now0 : Int) (t : Tree) (d : Nat) (hd : t.depth ≤ d) :
+    ∃ s, build now0 d t = .ok s ∧ (lvlSem d).U s (flat t) :=
+  build_ok now0 d t hd
 
-/-- tokens the composite still holds in a state -/
-def heldToks (st : St) : List Int :=
-  match st.cs with
-  | Leaf.fin _ _ _ (some s) :: _ => chainToks s st.cs
-  | _ => []
+/-- **One caller**: any sequence of `Start`/`Next`/`Left` calls on any tree returns exactly what the flat spec
+returns — tokens, finish time, `Left` values and the double-start panic — as long as the clock does not go back. -/
+theorem C02_seq_refines (now0 : Int) (t : Tree) (d : Nat) (hd : t.depth ≤ d) (s : Lvl d) (hb : build now0 d t = .ok s)
+    (calls : List (SOp × Int)) (clk0 : Int) (hclk : ClockSeq clk0 calls) :
+    seqRun (lvlOps d) s calls = absRun (.unstarted (flat t)) calls :=
+  seq_refines (lvlSem d) calls s (.unstarted (flat t)) clk0 (build_U now0 d t s hd hb) hclk
 
-theorem init_inv (offs : List Int) (dur s0 : Int) (rest : List Leaf) (la : List Int) (progs : List (List Op))
-    (hrest : ∀ r ∈ rest, UnstartedFin r) :
-    Inv (allToks offs dur s0 rest) (finishTime offs dur s0 rest) (initSt offs dur s0 rest la progs) := by
-  refine ⟨⟨offs, dur, 0, s0, rest, rfl, hrest, ?_, rfl⟩, ?_, ?_⟩
-  · simp [initSt, okToks, allToks]
-  · intro th hth
+/-- **Composition, any interleaving.**  Let the children of a composite be ANY schedule objects that refine the
+flat spec (`sem : Sem ops`) — leaves or composites of any depth taken as linearizable objects — and let the shared
+state stand for the abstract schedule `A0` (`ShRel`: unstarted, or started earlier).  Then for every number of
+callers, all their programs, every schedule of atomic actions and every non-decreasing sequence of clock readings
+the log of the run is a run of the ATOMIC flat spec (`Reach`): each returned `Next`/`Left` value is what the flat
+spec returns at the clock reading of the returning action (which lies inside the call), in that order; and the
+shared state again stands for the abstract state reached, so the composite can itself be used as such a child. -/
+theorem C02_conc_linearizable {σ : Type} (ops : Ops σ) (sem : Sem ops) (sh : Sh σ) (A0 : Abs) (clk0 : Int)
+    (h0 : ShRel sem sh A0 clk0) (progs : List (List Op)) (sched : List (Nat × Int)) (hclk : ClockOK clk0 sched) :
+    ∃ A, Reach A0 (run ops (initSt sh progs) sched).log A ∧
+      ShRel sem (run ops (initSt sh progs) sched).sh A (lastClk clk0 sched) := by
+  have hinv : Inv sem A0 (initSt sh progs) clk0 := by
+    refine ⟨A0, rfl, h0, fun th hth => ?_⟩
     simp only [initSt, List.mem_map] at hth
     obtain ⟨p, _, rfl⟩ := hth
     trivial
-  · intro e he; simp [initSt] at he
+  obtain ⟨A, h1, h2, _⟩ := run_inv sem (ops := ops) sched _ clk0 hclk hinv
+  exact ⟨A, h1, h2⟩
 
-/-- **exactly once, in order, nothing dropped** — for every number of callers, all their Next/Left programs and
-every interleaving: the tokens handed out so far (in hand-out order) followed by the tokens still held are
-exactly the flat succession of the parts' tokens. In particular what was handed out is a prefix of it: no token
-twice, none skipped, none lost when a part is shifted out. -/
-theorem C02_conc_exactly_once (offs : List Int) (dur s0 : Int) (rest : List Leaf) (la : List Int)
-    (progs : List (List Op)) (sched : List Nat) (now : Int) (hrest : ∀ r ∈ rest, UnstartedFin r) :
-    let st := run now (initSt offs dur s0 rest la progs) sched
-    okToks st.log ++ heldToks st = allToks offs dur s0 rest := by
-  intro st
-  have h := run_inv now sched _ (init_inv offs dur s0 rest la progs hrest)
-  obtain ⟨⟨o, d, i, s, r, hcs, _, hE, _⟩, _, _⟩ := h
-  show okToks st.log ++ heldToks st = _
-  have : heldToks st = chainToks s st.cs := by
-    unfold heldToks; rw [show st.cs = _ from hcs]
-  rw [this]; exact hE
+/-- **Every composite node of every tree, not started (the engine never calls `Start`: the first `Next` starts the
+schedule), any number of concurrent callers.**  The children are the subtrees, of any depth. -/
+theorem C02_tree_conc (now0 : Int) (t : Tree) (d : Nat) (hd : t.depth ≤ d + 1) (c : Comp (Lvl d))
+    (hb : build now0 (d + 1) t = .ok (.inr c)) (progs : List (List Op)) (sched : List (Nat × Int)) (clk0 : Int)
+    (hclk : ClockOK clk0 sched) :
+    ∃ A, Reach (.unstarted (flat t)) (run (lvlOps d) (initSt ⟨c.cs, c.la, c.started⟩ progs) sched).log A :=
+  let ⟨A, h, _⟩ := C02_conc_linearizable (lvlOps d) (lvlSem d) _ _ clk0 (built_shRel now0 t d hd c hb clk0) progs sched hclk
+  ⟨A, h⟩
 
-theorem C02_conc_prefix (offs : List Int) (dur s0 : Int) (rest : List Leaf) (la : List Int)
-    (progs : List (List Op)) (sched : List Nat) (now : Int) (hrest : ∀ r ∈ rest, UnstartedFin r) :
-    let st := run now (initSt offs dur s0 rest la progs) sched
-    okToks st.log = (allToks offs dur s0 rest).take (okToks st.log).length := by
-  intro st
-  have h : okToks st.log ++ heldToks st = allToks offs dur s0 rest :=
-    C02_conc_exactly_once offs dur s0 rest la progs sched now hrest
-  rw [← h]; simp
+/-- the same after `Start(t0)` -/
+theorem C02_tree_conc_started (now0 : Int) (t : Tree) (d : Nat) (hd : t.depth ≤ d + 1) (c c1 : Comp (Lvl d))
+    (hb : build now0 (d + 1) t = .ok (.inr c)) (t0 : Int) (hs : compStart (lvlOps d) c t0 = .ok c1)
+    (progs : List (List Op)) (sched : List (Nat × Int)) (clk0 : Int) (hclk : ClockOK clk0 sched) :
+    ∃ A, Reach (.running (inst (flat t) t0)) (run (lvlOps d) (initSt ⟨c1.cs, c1.la, c1.started⟩ progs) sched).log A := by
+  have hU := build_U now0 (d + 1) t (.inr c) hd hb
+  obtain ⟨s', hs', hR⟩ := (lvlSem (d + 1)).start_U hU t0
+  have he : s' = .inr c1 := by
+    have : (lvlOps (d + 1)).start (.inr c) t0 = Except.ok (Sum.inr c1) := by
+      show (compStart (lvlOps d) c t0).map Sum.inr = _
+      rw [hs]; rfl
+    rw [this] at hs'; cases hs'; rfl
+  subst he
+  obtain ⟨c0, rest, dead, segsH, ps, rfl, hR0, hU0, hD, hseg⟩ := (show compR (lvlSem d) c1 (inst (flat t) t0) clk0 from hR clk0)
+  have h0 : ShRel (lvlSem d) ⟨c0 :: rest, sufsP ps, true⟩ (.running (inst (flat t) t0)) clk0 :=
+    ⟨c0, rest, dead, segsH, ps, rfl, rfl, rfl, hR0, hU0, hD, hseg⟩
+  obtain ⟨A, h, _⟩ := C02_conc_linearizable (lvlOps d) (lvlSem d) _ _ clk0 h0 progs sched hclk
+  exact ⟨A, h⟩
 
-/-- **no caller ever panics, and every "finished" answer carries the one finish time** (stable after exhaustion),
-under every interleaving. -/
-theorem C02_conc_finish_stable (offs : List Int) (dur s0 : Int) (rest : List Leaf) (la : List Int)
-    (progs : List (List Op)) (sched : List Nat) (now : Int) (hrest : ∀ r ∈ rest, UnstartedFin r) :
-    let st := run now (initSt offs dur s0 rest la progs) sched
-    ∀ e ∈ st.log, (∀ m, e.2 ≠ Ret.panic m) ∧ (∀ tx, e.2 = Ret.tok tx false → tx = finishTime offs dur s0 rest) := by
-  intro st e he
-  have h := run_inv now sched _ (init_inv offs dur s0 rest la progs hrest)
-  have hl := h.2.2 e he
-  unfold LogOK at hl
+/-! ## B. The contract, for every run of the atomic flat spec -/
+
+/-- **A schedule that is not started** (no `Start` call: the engine's case) stays as it is while only `Left` calls
+return; the first `Next` — or an internal action on behalf of a `Next` in progress — starts it at ONE clock reading
+`t`, and from there on the log is a run of the running schedule `inst parts t`. -/
+theorem C02_autostart (parts : List Part) (log : Log) (A : Abs) (h : Reach (.unstarted parts) log A) :
+    (A = .unstarted parts ∧ ∀ e ∈ log, noTok e) ∨
+    ∃ t l2 l1, log = l2 ++ l1 ∧ Reach (.running (inst parts t)) l2 A ∧ (∀ e ∈ l1, noTok e) :=
+  reach_unstarted log A h
+
+/-- **Exactly once.**  At every moment of every run: the tokens of the finite parts handed out so far (`drawn`, in
+hand-out order), followed by those still held, are exactly the tokens of the flat succession of the parts — nothing
+twice, nothing skipped, nothing lost when a part is shifted out; `drawn` is a subsequence of the ok results in
+return order, every other ok result being a clock token of a live unlimited part. -/
+theorem C02_exactly_once (segs0 : List Seg) (log : Log) (A : Abs) (h : Reach (.running segs0) log A) :
+    ∃ segs, A = .running segs ∧ ∃ drawn, drawn ++ finToks segs = finToks segs0 ∧ drawn.Sublist (okToks log) := by
+  obtain ⟨segs, hA, drawn, h1, h2, _⟩ := exactly_once log A h
+  exact ⟨segs, hA, drawn, h1, h2⟩
+
+/-- … and when no part is unlimited, the ok results in return order ARE the tokens, in order, each once. -/
+theorem C02_exactly_once_finite (segs0 : List Seg) (hfin : 0 ≤ pendSegs segs0) (log : Log) (A : Abs)
+    (h : Reach (.running segs0) log A) :
+    ∃ segs, A = .running segs ∧ okToks log ++ finToks segs = finToks segs0 := by
+  obtain ⟨segs, hA, drawn, h1, _, h3⟩ := exactly_once log A h
+  obtain ⟨_, rfl⟩ := h3 hfin
+  exact ⟨segs, hA, h1⟩
+
+/-- one ok result: it pops the first remaining finite token, or it is the clock reading (never before the part's
+start) of the live unlimited part all of whose predecessors are exhausted -/
+theorem C02_next_step (segs : List Seg) (now : Int) :
+    ((segNext segs now).2.2 = true ∧ finToks segs = (segNext segs now).2.1 :: finToks (segNext segs now).1) ∨
+    (finToks (segNext segs now).1 = finToks segs ∧ ((segNext segs now).2.2 = true → UnlTok segs now (segNext segs now).2.1)) :=
+  segNextAux_finToks segs 0 now
+
+/-- **Times never decrease** — all times returned by `Next` (tokens and finish times), taken in return order, over
+ALL callers, are non-decreasing, provided the parts are well formed (`Chain`: offsets sorted inside [0, dur],
+dur ≥ 0 — what once/const/line/unlimited produce, `C02_chain_wf`) and the clock does not go back. -/
+theorem C02_times_monotone (segs0 : List Seg) (hne : segs0 ≠ []) (b : Int) (hc : Chain b segs0) (log : Log) (A : Abs)
+    (hi : Int) (h : Reach (.running segs0) log A) (hm : LogMono hi log) : (times log).Pairwise (· ≤ ·) := by
+  obtain ⟨_, _, _, hp, _⟩ := times_mono hc (Or.inr hne) log A hi h hm
+  exact hp
+
+/-- the times returned to ONE caller never decrease -/
+theorem C02_per_caller_monotone (segs0 : List Seg) (hne : segs0 ≠ []) (b : Int) (hc : Chain b segs0) (log : Log)
+    (A : Abs) (hi : Int) (h : Reach (.running segs0) log A) (hm : LogMono hi log) (i : Nat) :
+    (times (log.filter (fun e => e.1 == i))).Pairwise (· ≤ ·) := by
+  have hp := C02_times_monotone segs0 hne b hc log A hi h hm
+  refine hp.sublist ?_
+  unfold times
+  exact (List.filter_sublist.reverse).filterMap _
+
+/-- parts as once/const/line/unlimited produce them give a well-formed chain at every start time -/
+theorem C02_chain_wf (parts : List Part) (t : Int) (hw : ∀ x ∈ parts, x.wf = true) : Chain t (inst parts t) :=
+  chain_inst parts t hw
+
+/-- the log of a run has non-decreasing clock readings when the schedule of actions has -/
+theorem C02_log_clock {σ : Type} (ops : Ops σ) : ∀ (sched : List (Nat × Int)) (st : St σ) (clk : Int),
+    ClockOK clk sched → LogMono clk st.log → LogMono (lastClk clk sched) (run ops st sched).log
+  | [], _, _, _, h => h
+  | e :: rest, st, clk, hc, h => by
+      have hstep : LogMono e.2 (step ops st e).log := by
+        have hw : LogMono e.2 st.log := by
+          cases hl : st.log with
+          | nil => trivial
+          | cons x xs => rw [hl] at h; exact ⟨by have := h.1; have := hc.1; omega, h.2⟩
+        unfold step
+        cases st.thr[e.1]? with
+        | none => exact hw
+        | some th =>
+          simp only
+          cases th.todo with
+          | nil => exact hw
+          | cons op more =>
+            simp only [applyOut]
+            have hw' : ∀ out, LogMono e.2 ((e.1, e.2, out) :: st.log) := fun out => ⟨Int.le_refl _, hw⟩
+            cases (runSection ops st.sh th.pc op e.2).2 <;> exact hw' _
+      have := C02_log_clock ops rest (step ops st e) e.2 hc.2 hstep
+      simpa [run, lastClk] using this
+
+/-- **Each nested part starts exactly at the finish time of the part before it**: the parts of a composite are the
+parts of its children one after the other, and a succession `a ++ b` started at `t` is `a` started at `t` followed by
+`b` started at the finish time of `a`. -/
+theorem C02_chain (a b : List Part) (t : Int) :
+    inst (a ++ b) t = inst a t ++ inst b (endOf a t) ∧ finOf (inst a t) t = endOf a t :=
+  ⟨inst_append a b t, finOf_inst a t⟩
+
+theorem C02_flat_comp (c1 c2 : Tree) (cs : List Tree) :
+    flat (.comp (c1 :: c2 :: cs)) = flat c1 ++ flat c2 ++ flatList cs := by
+  have hne : flat c1 ++ (flat c2 ++ flatList cs) ≠ [] := by
+    have := flat_ne c1
+    simp [this]
+  simp only [flat, flatList]
+  rw [List.append_assoc]
+
+/-- **After exhaustion every call keeps returning the same finish time**: every `!ok` result of every caller, at
+any time, is the finish time of the last part; and nobody panics. -/
+theorem C02_finish_stable (segs0 : List Seg) (hne : segs0 ≠ []) (log : Log) (A : Abs) (h : Reach (.running segs0) log A) :
+    ∀ e ∈ log, ∀ tx, e.2.2 = .ret (.tok tx false) → tx = finOf segs0 0 := by
+  obtain ⟨_, _, _, hall⟩ := finish_stable hne log A h
+  exact hall
+
+theorem C02_no_panic (A0 : Abs) (log : Log) (A : Abs) (h : Reach A0 log A) :
+    ∀ e ∈ log, ∀ m, e.2.2 ≠ .ret (.panic m) :=
+  no_panic log A h
+
+/-- a `!ok` result means that nothing is left: every part is exhausted or finished at that clock reading -/
+theorem C02_finished_is_dead (segs : List Seg) (now : Int) (h : (segNext segs now).2.2 = false) : Dead segs now :=
+  (segNextAux_notok segs 0 now h).1
+
+/-- … and from then on (clock not going back) every `Next` returns `!ok` and the same time -/
+theorem C02_dead_stays (segs : List Seg) (clk now : Int) (hd : Dead segs clk) (hle : clk ≤ now) :
+    segNext segs now = (segs, finOf segs 0, false) :=
+  segNextAux_dead segs 0 clk now hd hle
+
+/-- **Left is exact whenever it is non-negative**: zero only if no token remains (the next `Next`, at any later
+clock reading, is `!ok`); positive ⇒ the next `Next` is ok and `Left` drops by exactly one; and it does not move
+while nobody draws. -/
+theorem C02_left_exact (segs : List Seg) (now now' : Int) (hk : 0 ≤ segLeft segs now) (hle : now ≤ now') :
+    segLeft segs now' = segLeft segs now ∧
+    (segNext segs now').2.2 = decide (0 < segLeft segs now) ∧
+    segLeft (segNext segs now').1 now' = segLeft segs now - (if 0 < segLeft segs now then 1 else 0) := by
+  have hs := segLeft_known_stable segs now now' hk hle
+  have := segLeft_step segs 0 now' (by rw [hs]; exact hk)
+  rw [hs] at this
+  exact ⟨hs, this.1, this.2⟩
+
+theorem C02_left_zero (segs : List Seg) (now : Int) : segLeft segs now = 0 ↔ Dead segs now :=
+  segLeft_zero_iff segs now
+
+/-- a known `Left` is the number of finite tokens not yet handed out, all unlimited parts before them being finished -/
+theorem C02_left_count (segs : List Seg) (now : Int) (hk : 0 ≤ segLeft segs now) :
+    ∃ pre post, segs = pre ++ post ∧ Dead pre now ∧ 0 ≤ pendSegs post ∧ segLeft segs now = ((finToks post).length : Int) :=
+  segLeft_exact segs now hk
+
+/-- **Left is negative only while the total is genuinely unknown**: it is then exactly -1 and there is a
+time-bounded unlimited part that has not finished yet: not reached yet, or current with the clock before its finish -/
+theorem C02_left_negative (segs : List Seg) (now : Int) (h : segLeft segs now < 0) :
+    segLeft segs now = -1 ∧ ∃ pre s f post, segs = pre ++ Seg.unl s f :: post ∧ (Dead pre now → now < f) :=
+  ⟨by have := segLeft_ge segs now; omega, segLeft_neg segs now h⟩
+
+/-- before the start: the exact total, or -1 iff some part is unlimited -/
+theorem C02_left_unstarted (parts : List Part) : 0 ≤ partsLeft parts ∨
+    (partsLeft parts = -1 ∧ ∃ pre d post, parts = pre ++ Part.unl d :: post) := by
+  induction parts with
+  | nil => exact Or.inl (by simp [partsLeft])
+  | cons p r ih =>
+    cases p with
+    | unl d => exact Or.inr ⟨rfl, [], d, r, rfl⟩
+    | fin offs dur =>
+      rcases ih with h | ⟨h, pre, d, post, rfl⟩
+      · left; simp only [partsLeft]; split <;> omega
+      · right; exact ⟨by simp [partsLeft, h], .fin offs dur :: pre, d, post, rfl⟩
+
+/-- **StartSync: a second `Start`, or a `Start` after the first `Next`, panics "schedule is already started"** —
+for every tree. -/
+theorem C02_double_start (now0 : Int) (t : Tree) (d : Nat) (hd : t.depth ≤ d) (s : Lvl d) (hb : build now0 d t = .ok s)
+    (t0 t1 now : Int) :
+    (∃ s1, (lvlOps d).start s t0 = .ok s1 ∧ (lvlOps d).start s1 t1 = .error alreadyStarted) ∧
+    (∃ s1 tx ok, (lvlOps d).next s now = .ok (s1, tx, ok) ∧ (lvlOps d).start s1 t1 = .error alreadyStarted) := by
+  have hU := build_U now0 d t s hd hb
   constructor
-  · intro m hm; rw [hm] at hl; exact hl
-  · intro tx htx; rw [htx] at hl; exact hl
+  · obtain ⟨s1, hs, hR⟩ := (lvlSem d).start_U hU t0
+    exact ⟨s1, hs, (lvlSem d).start_R (hR 0) t1⟩
+  · obtain ⟨s1, hs1, hn1⟩ := (lvlSem d).next_U hU now
+    obtain ⟨s1', hs1', hR1⟩ := (lvlSem d).start_U hU now
+    rw [hs1] at hs1'; cases hs1'
+    obtain ⟨s2, hn, hR2⟩ := (lvlSem d).next_R (hR1 now) now (Int.le_refl _)
+    exact ⟨s2, _, _, by rw [hn1]; exact hn, (lvlSem d).start_R hR2 t1⟩
 
-/-- a caller parked before `Lock` never shifts out a part that still has tokens: when it gets the lock either
-somebody else already shifted (the list is shorter than what it saw) or the head is the exhausted part it saw. -/
-theorem C02_conc_shift_safe (offs : List Int) (dur s0 : Int) (rest : List Leaf) (la : List Int)
-    (progs : List (List Op)) (sched : List Nat) (now : Int) (hrest : ∀ r ∈ rest, UnstartedFin r) :
-    let st := run now (initSt offs dur s0 rest la progs) sched
-    ∀ th ∈ st.thr, ∀ tx seen, th.pc = Pc.nextW tx seen →
-      st.cs.length ≤ seen ∧ (st.cs.length = seen → HeadExhausted st.cs tx) := by
-  intro st th hth tx seen hpc
-  have h := (run_inv now sched _ (init_inv offs dur s0 rest la progs hrest)).2.1 th hth
-  rw [hpc] at h
-  exact ⟨h.2.1, h.2.2⟩
+/-! ### callbackOnFinishSchedule -/
 
--- non-vacuity: [once(1), once(0), once(2)] started at 0, two callers, an interleaving in which both park
-example : (∀ r ∈ [Leaf.fin [] 0 0 none, Leaf.fin [0, 0] 0 0 none], UnstartedFin r) := by
-  intro r hr; simp at hr; rcases hr with rfl | rfl <;> trivial
-example : okToks (run 5 (initSt [0] 0 0 [Leaf.fin [] 0 0 none, Leaf.fin [0, 0] 0 0 none] [2, 2, 0]
-    [[.next, .next], [.next, .next]]) [0, 1, 0, 1, 1, 0, 0, 1]).log = [0, 0, 0] := by decide
+def obsOf : Out → Option Obs
+  | .ret (.tok tx ok) => some (.tok tx ok)
+  | .ret (.cnt n) => some (.cnt n)
+  | _ => none
 
-/-! ## Sequential part: nesting to any depth -/
+/-- the callback state after a log (newest first): `onFinishOnce.Do(onFinish)` after each finishing result -/
+def cbOfLog : Log → Cb
+  | [] => {}
+  | e :: older => match obsOf e.2.2 with
+    | some o => (cbOfLog older).after o
+    | none => cbOfLog older
 
-section Seq
-open Pandora.Proofs.C02Seq
+def isFinishEv (e : Nat × Int × Out) : Prop := ∃ o, obsOf e.2.2 = some o ∧ finishObs o = true
 
-mutual
-/-- every schedule object that can be built from finite leaf profiles (once/const/line: a list of offsets and a
-duration) by `NewComposite`, nested to any depth, with 0, 1 or more children, together with what it denotes:
-started at `t` it hands out `den.1 t` and finishes at `den.2 t`. -/
-inductive Built (now : Int) : (d : Nat) → Lvl d → Den → Prop
-  | leaf (offs : List Int) (dur : Int) :
-      Built now 0 (Leaf.fin offs dur 0 none) (fun t => offs.map (t + ·), fun t => t + dur)
-  | lift {d : Nat} {x : Lvl d} {den : Den} : Built now d x den → Built now (d + 1) (.inl x) den
-  | comp {d : Nat} {cs : List (Lvl d)} {dens : List Den} {s : Lvl (d + 1)} :
-      BuiltList now d cs dens → newComposite (lvlOps d) now cs = .ok s →
-      Built now (d + 1) s (chainTk dens, chainFn dens)
-inductive BuiltList (now : Int) : (d : Nat) → List (Lvl d) → List Den → Prop
-  | nil {d : Nat} : BuiltList now d [] []
-  | cons {d : Nat} {c : Lvl d} {den : Den} {cs : List (Lvl d)} {dens : List Den} :
-      Built now d c den → BuiltList now d cs dens → BuiltList now d (c :: cs) (den :: dens)
-end
+/-- **onFinish runs at most once, and exactly once as soon as some `Next` returned `!ok` or some `Left` returned 0** -/
+theorem C02_onFinish_once : ∀ (log : Log),
+    (cbOfLog log).calls ≤ 1 ∧ ((cbOfLog log).fired = true ↔ (cbOfLog log).calls = 1) ∧
+    ((cbOfLog log).calls = 1 ↔ ∃ e ∈ log, isFinishEv e)
+  | [] => by simp [cbOfLog]
+  | e :: older => by
+      obtain ⟨h1, h2, h3⟩ := C02_onFinish_once older
+      simp only [cbOfLog]
+      cases ho : obsOf e.2.2 with
+      | none =>
+        refine ⟨h1, h2, h3.trans ⟨fun ⟨x, hx, hf⟩ => ⟨x, List.mem_cons_of_mem _ hx, hf⟩, fun ⟨x, hx, hf⟩ => ?_⟩⟩
+        rcases List.mem_cons.mp hx with rfl | hx
+        · obtain ⟨o, ho', _⟩ := hf; rw [ho] at ho'; cases ho'
+        · exact ⟨x, hx, hf⟩
+      | some o =>
+        simp only [Cb.after]
+        by_cases hf : finishObs o = true
+        · cases hfired : (cbOfLog older).fired with
+          | true =>
+            have hc := h2.mp hfired
+            have hcond : (finishObs o && !(cbOfLog older).fired) = false := by simp [hfired]
+            simp only [Bool.not_true, Bool.and_false, Bool.false_eq_true, if_false]
+            exact ⟨h1, h2, ⟨fun _ => ⟨e, List.mem_cons_self, o, ho, hf⟩, fun _ => hc⟩⟩
+          | false =>
+            have hc : (cbOfLog older).calls = 0 := by
+              have : ¬ (cbOfLog older).calls = 1 := fun h => by rw [h2.mpr h] at hfired; cases hfired
+              omega
+            have hcond : (finishObs o && !(cbOfLog older).fired) = true := by simp [hf, hfired]
+            simp only [hf, Bool.not_false, Bool.and_self, if_true]
+            exact ⟨by omega, by simp [hc], ⟨fun _ => ⟨e, List.mem_cons_self, o, ho, hf⟩, fun _ => by omega⟩⟩
+        · have hf' : finishObs o = false := by simpa using hf
+          simp only [hf', Bool.false_and, Bool.false_eq_true, if_false]
+          refine ⟨h1, h2, h3.trans ⟨fun ⟨x, hx, hfx⟩ => ⟨x, List.mem_cons_of_mem _ hx, hfx⟩, fun ⟨x, hx, hfx⟩ => ?_⟩⟩
+          rcases List.mem_cons.mp hx with rfl | hx
+          · obtain ⟨o', ho', hfo⟩ := hfx
+            rw [ho] at ho'; cases ho'; rw [hf'] at hfo; cases hfo
+          · exact ⟨x, hx, hfx⟩
 
-mutual
-theorem built_U {now : Int} : ∀ {d : Nat} {s : Lvl d} {den : Den}, Built now d s den → (lvlSem d).U s den.1 den.2
-  | _, _, _, .leaf offs dur => ⟨rfl, rfl⟩
-  | _, _, _, .lift (d := d) (x := x) (den := den) h => by
-      show (lvlSem d).U x den.1 den.2
-      exact built_U h
-  | _, _, _, .comp (d := d) (cs := cs) (dens := dens) hl hnew => by
-      obtain ⟨s', hs', hU⟩ := newComposite_sem (lvlSem d) now cs dens (builtList_allU hl)
-      rw [hnew] at hs'
-      cases hs'
-      exact hU
-theorem builtList_allU {now : Int} : ∀ {d : Nat} {cs : List (Lvl d)} {dens : List Den},
-    BuiltList now d cs dens → AllU (lvlSem d) cs dens
-  | _, _, _, .nil => trivial
-  | _, _, _, .cons h hl => ⟨built_U h, builtList_allU hl⟩
-end
+/-- **onFinish never fires while a token is still to come**: after a `Next` that returned `!ok` or a `Left` that
+returned 0, no caller ever gets a token again (clock not going back). -/
+theorem C02_onFinish_sound (segs0 : List Seg) (newer older : Log) (e : Nat × Int × Out) (A : Abs) (hi : Int)
+    (h : Reach (.running segs0) (newer ++ e :: older) A) (hm : LogMono hi (newer ++ e :: older)) (hf : isFinishEv e) :
+    ∀ x ∈ newer, okTok x = none := by
+  obtain ⟨A2, h2, hnew⟩ := reach_split newer (e :: older) A h
+  obtain ⟨A1, h1, hs⟩ := h2
+  obtain ⟨segs1, rfl, _⟩ := reach_induct (fun _ _ => True) trivial (fun _ _ _ _ _ _ => trivial) older A1 h1
+  obtain ⟨segs2, rfl, hrs⟩ := absStep_running hs
+  -- the state after the finishing result is dead at its clock reading
+  have hdead : Dead segs2 e.2.1 := by
+    obtain ⟨o, ho, hfo⟩ := hf
+    obtain ⟨i, now, out⟩ := e
+    cases out with
+    | goto pc => cases ho
+    | ret r =>
+      cases r with
+      | panic m => cases ho
+      | cnt n =>
+        simp only [obsOf, Option.some.injEq] at ho; subst ho
+        simp only [finishObs, beq_iff_eq] at hfo
+        simp only [RStep] at hrs
+        obtain ⟨hl, rfl⟩ := hrs
+        exact (segLeft_zero_iff _ now).mp (by rw [hl]; exact hfo)
+      | tok tx ok =>
+        simp only [obsOf, Option.some.injEq] at ho; subst ho
+        cases ok with
+        | true => simp [finishObs] at hfo
+        | false =>
+          simp only [RStep] at hrs
+          have h3 : (segNextAux 0 segs1 now).2.2 = false := congrArg (fun x => x.2.2) hrs
+          have h1' : (segNextAux 0 segs1 now).1 = segs2 := congrArg Prod.fst hrs
+          obtain ⟨hd, hsame, _⟩ := segNextAux_notok segs1 0 now h3
+          rw [← h1', hsame]; exact hd
+  -- clock readings of the newer part are at least that of `e`
+  have hclk : ∀ (l : Log) (hi : Int), LogMono hi (l ++ e :: older) → ∀ x ∈ l, e.2.1 ≤ x.2.1 := by
+    intro l
+    induction l with
+    | nil => intro _ _ x hx; cases hx
+    | cons y ys ih =>
+      intro hi hm x hx
+      have hy : e.2.1 ≤ y.2.1 := by
+        cases ys with
+        | nil => exact hm.2.1
+        | cons z zs => have := ih y.2.1 hm.2 z List.mem_cons_self; have := hm.2.1; omega
+      rcases List.mem_cons.mp hx with rfl | hx
+      · exact hy
+      · exact ih y.2.1 hm.2 x hx
+  have hge := hclk newer hi hm
+  -- a dead schedule stays dead and hands out nothing
+  clear h hm hs h1 hrs hclk
+  induction newer generalizing A with
+  | nil => intro x hx; cases hx
+  | cons y ys ih =>
+    obtain ⟨A3, hr3, hs3⟩ := hnew
+    have ih' := ih A3 hr3 (fun x hx => hge x (List.mem_cons_of_mem _ hx))
+    intro x hx
+    rcases List.mem_cons.mp hx with rfl | hx
+    · obtain ⟨segs3, rfl, hd3⟩ : ∃ segs3, A3 = .running segs3 ∧ Dead segs3 e.2.1 := by
+        clear ih ih' hs3 hx
+        induction ys generalizing A3 with
+        | nil => exact ⟨segs2, hr3, hdead⟩
+        | cons z zs ihz =>
+          obtain ⟨A4, hr4, hs4⟩ := hr3
+          obtain ⟨segs4, rfl, hd4⟩ := ihz A4 hr4 (fun x hx => hge x (by
+            rcases List.mem_cons.mp hx with rfl | hx
+            · exact List.mem_cons_self
+            · exact List.mem_cons_of_mem _ (List.mem_cons_of_mem _ hx)))
+          obtain ⟨segs5, rfl, hrs5⟩ := absStep_running hs4
+          refine ⟨segs5, rfl, ?_⟩
+          obtain ⟨i, now, out⟩ := z
+          cases out with
+          | goto pc => simp only [RStep] at hrs5; rw [hrs5]; exact hd4
+          | ret r =>
+            cases r with
+            | panic m => exact absurd hrs5 (by simp [RStep])
+            | cnt n => simp only [RStep] at hrs5; rw [hrs5.2]; exact hd4
+            | tok tx ok =>
+              simp only [RStep] at hrs5
+              have h1' : (segNextAux 0 segs4 now).1 = segs5 := congrArg Prod.fst hrs5
+              rw [← h1']; exact dead_segNextAux segs4 0 now _ hd4
+      obtain ⟨segs6, _, hrs6⟩ := absStep_running hs3
+      obtain ⟨i, now, out⟩ := x
+      cases out with
+      | goto pc => rfl
+      | ret r =>
+        cases r with
+        | panic m => rfl
+        | cnt n => rfl
+        | tok tx ok =>
+          simp only [RStep] at hrs6
+          have hle : e.2.1 ≤ now := hge _ List.mem_cons_self
+          have hx := segNextAux_dead segs3 0 e.2.1 now hd3 hle
+          have h3 : (segNextAux 0 segs3 now).2.2 = ok := congrArg (fun x => x.2.2) hrs6
+          rw [hx] at h3
+          simp only at h3; subst h3
+          rfl
+    · exact ih' x hx
 
-/-- successive `Next()` calls, one clock reading each -/
-def nexts {σ : Type} (ops : Ops σ) : σ → List Int → Except String (σ × List (Int × Bool))
-  | s, [] => .ok (s, [])
-  | s, now :: nows =>
-    match ops.next s now with
-    | .error e => .error e
-    | .ok (s', tx, ok) =>
-      match nexts ops s' nows with
-      | .error e => .error e
-      | .ok (s'', rs) => .ok (s'', (tx, ok) :: rs)
+/-! ### instance_step -/
 
-/-- what `n` successive calls must return: the tokens in order, each once, then the finish time for ever -/
-def expected (toks : List Int) (f : Int) : Nat → List (Int × Bool)
-  | 0 => []
-  | n + 1 => match toks with
-    | t :: ts => (t, true) :: expected ts f n
-    | [] => (f, false) :: expected [] f n
+/-- **instance_step**: `NewInstanceStep(from, to, step, d)` is the flat succession once(from), then k times
+(a token-less part of duration d, once(step)); so started at `t` it hands out `from` tokens at `t` and `step` tokens
+at `t + j·d` for j = 1..k, each exactly once, and finishes at `t + k·d` — and, being a tree, everything above
+applies to it. -/
+theorem C02_instance_step (frm to step : Nat) (dur : Int) :
+    ∃ k, flat (instanceStepTree frm to step dur) =
+      Part.fin (List.replicate frm 0) 0 :: (List.replicate k [Part.fin [] dur, Part.fin (List.replicate step 0) 0]).flatten := by
+  obtain ⟨k, hk⟩ := flatList_isLoop to step dur (to + 1) (frm + step)
+  exact ⟨k, by simp [instanceStepTree, flat, flatList, hk]⟩
 
-theorem nexts_running {σ : Type} {ops : Ops σ} (fs : FinSem ops) : ∀ (nows : List Int) (s : σ) (toks : List Int) (f : Int),
-    fs.R s toks f → ∃ s', nexts ops s nows = .ok (s', expected toks f nows.length) ∧ fs.R s' (toks.drop nows.length) f
-  | [], s, toks, f, h => ⟨s, rfl, by simpa using h⟩
-  | now :: nows, s, [], f, h => by
-      obtain ⟨s1, hn, h1⟩ := fs.next_nil h now
-      obtain ⟨s2, hr, h2⟩ := nexts_running fs nows s1 [] f h1
-      exact ⟨s2, by simp [nexts, hn, hr, expected], by simpa using h2⟩
-  | now :: nows, s, t :: ts, f, h => by
-      obtain ⟨s1, hn, h1⟩ := fs.next_cons h now
-      obtain ⟨s2, hr, h2⟩ := nexts_running fs nows s1 ts f h1
-      exact ⟨s2, by simp [nexts, hn, hr, expected], by simpa using h2⟩
+/-- tokens of `k` rounds of (wait `dur`, then `step` tokens at once) after time `t` -/
+def stepToks (step : Nat) (dur : Int) : Nat → Int → List Int
+  | 0, _ => []
+  | k + 1, t => List.replicate step (t + dur) ++ stepToks step dur k (t + dur)
 
-/-- **Token contract of every finite schedule tree, any nesting depth** (sequential caller, any clock readings):
-after `Start(t0)` the successive `Next()` results are exactly the tokens of the flat succession of the parts —
-each part starting at the finish time of the part before it (`chainTk`) — in order, each once, and after
-exhaustion the same finish time for ever; and at that point `Left()` is exactly the number of tokens not yet
-handed out (hence ≥ 0, zero iff none remains, one less per token drawn) and does not disturb the schedule. -/
-theorem C02_seq_contract (now0 : Int) (d : Nat) (s : Lvl d) (den : Den) (hb : Built now0 d s den)
-    (t0 : Int) (nows : List Int) (nowL : Int) :
-    ∃ s1 s2, (lvlOps d).start s t0 = .ok s1 ∧
-      nexts (lvlOps d) s1 nows = .ok (s2, expected (den.1 t0) (den.2 t0) nows.length) ∧
-      (lvlOps d).left s2 nowL = .ok (s2, (((den.1 t0).drop nows.length).length : Int)) := by
-  obtain ⟨s1, hs, hR⟩ := (lvlSem d).start_U (built_U hb) t0
-  obtain ⟨s2, hn, hR2⟩ := nexts_running (lvlSem d) nows s1 _ _ hR
-  exact ⟨s1, s2, hs, hn, (lvlSem d).left_R hR2 nowL⟩
+theorem C02_instance_step_tokens (step : Nat) (dur : Int) : ∀ (k : Nat) (t : Int),
+    finToks (inst ((List.replicate k [Part.fin [] dur, Part.fin (List.replicate step 0) 0]).flatten) t) =
+      stepToks step dur k t ∧
+    endOf ((List.replicate k [Part.fin [] dur, Part.fin (List.replicate step 0) 0]).flatten) t = t + k * dur
+  | 0, t => by simp [inst, finToks, endOf, stepToks]
+  | k + 1, t => by
+      obtain ⟨ih1, ih2⟩ := C02_instance_step_tokens step dur k (t + dur)
+      constructor
+      · simp only [List.replicate_succ, List.flatten_cons, List.cons_append, List.nil_append, inst, finToks,
+          List.map_nil, Int.add_zero, stepToks]
+        rw [ih1]
+        simp
+      · simp only [List.replicate_succ, List.flatten_cons, List.cons_append, List.nil_append, endOf, Part.dur, Int.add_zero]
+        rw [ih2]
+        have : ((k + 1 : Nat) : Int) * dur = (k : Int) * dur + dur := by
+          rw [Int.natCast_add, Int.add_mul]; simp
+        rw [this]; omega
 
-/-- an unstarted tree started implicitly by its first `Next()` behaves as if started at that clock reading -/
-theorem C02_seq_autostart (now0 : Int) (d : Nat) (s : Lvl d) (den : Den) (hb : Built now0 d s den) (now : Int) :
-    ∃ s1, (lvlOps d).start s now = .ok s1 ∧ (lvlOps d).next s now = (lvlOps d).next s1 now :=
-  (lvlSem d).next_U (built_U hb) now
 
-/-- before it is started, `Left()` of a finite tree is its total number of tokens, whatever the start time -/
-theorem C02_seq_left_unstarted (now0 : Int) (d : Nat) (s : Lvl d) (den : Den) (hb : Built now0 d s den) (now t : Int) :
-    (lvlOps d).left s now = .ok (s, ((den.1 t).length : Int)) := by
-  rw [(lvlSem d).len_U (built_U hb) t]
-  exact (lvlSem d).left_U (built_U hb) now
+/-! ## C. The atomicity assumption, re-read from the source on every check -/
 
-/-- the meaning of a composite: its parts in order, part j+1 starting exactly at the finish time of part j -/
-theorem C02_seq_chain (d : Den) (ds : List Den) (t : Int) :
-    chainTk (d :: ds) t = d.1 t ++ chainTk ds (d.2 t) ∧ chainFn (d :: ds) t = chainFn ds (d.2 t) := ⟨rfl, rfl⟩
+/-- **Lock discipline of composite.go as it is now** (`Gen/C02Locks.lean` is regenerated from the source): every
+child call and every read of `scheds` / `leftAfter` is made under the read or the write lock, every write and
+`startNext` under the write lock, and with no lock held a caller only touches the atomic flag, passes one of the
+two scheduling points before `Lock`, retries, or panics after `Unlock` — the sections of `Model/C02Par.lean`. -/
+theorem C02_lock_discipline : ∀ r ∈ Pandora.Gen.C02Locks.rows, Pandora.Bridge.C02Locks.rowOK r = true := by
+  rw [Pandora.Bridge.C02Locks.rows_eq]
+  exact Pandora.Bridge.C02Locks.expected_ok
 
--- non-vacuity: composite[once(1), composite[once(0), once(2)], composite[]] is `Built`, depth 2
-example : ∃ s den, Built 0 2 s den ∧ den.1 7 = [7, 7, 7] := by
-  have l1 : Built 0 0 (Leaf.fin [0] 0 0 none) _ := .leaf [0] 0
-  have l0 : Built 0 0 (Leaf.fin [] 0 0 none) _ := .leaf [] 0
-  have l2 : Built 0 0 (Leaf.fin [0, 0] 0 0 none) _ := .leaf [0, 0] 0
-  have c1 : Built 0 1 _ _ := .comp (.cons l0 (.cons l2 .nil)) rfl
-  have c0 : Built 0 1 _ _ := .comp (d := 0) .nil rfl
-  have top : Built 0 2 _ _ := .comp (.cons (.lift l1) (.cons c1 (.cons c0 .nil))) rfl
-  exact ⟨_, _, top, by simp [chainTk]⟩
+/-! ## non-vacuity -/
 
-end Seq
+-- the flat spec on [once(1) with duration 5; unlimited(10); once(2)] started at 0, clock 7, 7, 20, 20, 20, 20
+example : absRun (.unstarted [.fin [0] 5, .unl 10, .fin [0, 0] 0])
+    [(.left, 0), (.start 0, 0), (.next, 7), (.left, 7), (.next, 7), (.next, 20), (.left, 20), (.next, 20), (.next, 20), (.left, 21)] =
+    [.cnt (-1), .started, .tok 0 true, .cnt (-1), .tok 7 true, .tok 15 true, .cnt 1, .tok 15 true, .tok 15 false, .cnt 0] := by
+  decide
+
+-- an unlimited part started in advance hands out its start time, not the (earlier) clock reading
+example : (segNext [.fin [] 100, .unl 100 110] 7).2 = (100, true) := by decide
+
+-- the hypotheses of `C02_conc_linearizable` / `C02_tree_conc` are satisfiable: every composite with two or more
+-- children is built as a composite node, e.g. composite[once(1), composite[once(0), once(2)], unlimited(3)]
+example : ∃ c, build 0 2 (.comp [.fin [0] 0, .comp [.fin [] 0, .fin [0, 0] 0], .unl 3]) = .ok (.inr c) :=
+  build_inr 0 _ _ _ 1 (by decide)
+example : ShRel leafSem ⟨[Leaf.fin [0] 0 0 none, Leaf.unl 3 none], sufsP [[.unl 3]], false⟩
+    (.unstarted [.fin [0] 0, .unl 3]) 0 :=
+  ⟨_, _, [.fin [0] 0], [[.unl 3]], rfl, rfl, by simp [leafSem, leafU], ⟨by simp [leafSem, leafU], trivial⟩, rfl⟩
+
+-- a clock that does not go back, and a well-formed chain
+example : ClockOK 0 [(0, 1), (1, 1), (0, 5)] := by simp [ClockOK]
+example : Chain 3 (inst [.fin [0, 1, 2] 2, .unl 4, .fin [] 0] 3) :=
+  C02_chain_wf _ 3 (by decide)
+
+-- Left: known and positive / zero / negative
+example : segLeft [.fin [] 5, .unl 5 9, .fin [10, 10] 10] 9 = 2 ∧ segLeft [.fin [] 5, .unl 5 9, .fin [10, 10] 10] 8 = -1 ∧
+    segLeft [.fin [] 5, .unl 5 9] 9 = 0 := by decide
 
 end Pandora.Props.C02
